@@ -159,6 +159,8 @@ type Sess struct {
 	// LangSeen records the language observed on every lookup, in order.
 	Lookups     []Lookup
 	KeepLookups bool
+	// FailTemplateThisRequest makes every template lookup of the next request fail (fault injection; cleared by Request).
+	FailTemplateThisRequest bool
 	// FailFirstNext makes the next call of the pre-VM function fail (fault injection); FirstFailed counts them.
 	FailFirstNext bool
 	FirstFailed   int
@@ -235,6 +237,12 @@ func (r *Res) GetTemplate(ctx context.Context, sym string) (string, error) {
 	if n == nil {
 		s.W.Rec.Add(s.Idx, "GetTemplate", sym+"/"+lg, "ERR")
 		return "", fmt.Errorf("no template for %s", sym)
+	}
+	if s.FailTemplateThisRequest {
+		// injected fault: the template store fails for every lookup of this request
+		s.W.Fired["template_lookup_error"]++
+		s.W.Rec.Add(s.Idx, "GetTemplate", sym+"/"+lg, "FAULT")
+		return "", fmt.Errorf("injected failure of the template lookup")
 	}
 	tpl, ok := n.Tpl[lg]
 	if !ok {
@@ -601,6 +609,7 @@ func (s *Sess) Request(input []byte, fresh bool) *Step {
 	}
 	s.W.Rec.Add(s.Idx, "Done", fmt.Sprintf("cont=%v %s", st.Cont, res), st.Out)
 	s.cur = nil
+	s.FailTemplateThisRequest = false
 	s.Steps = append(s.Steps, st)
 	pp, pi := s.Position()
 	s.PosLog = append(s.PosLog, Pos{pp, pi, len(s.CallLog)})
